@@ -100,7 +100,13 @@ def explore(mod_name, func_name, params, opts):
         if status != 'abort':
             v, m = ctx.full_model(TRUE, ctx.t_claim)
             if v == 'unsat':
-                res['vacuous_paths'] += 1
+                # a path entered through a branch whose feasibility the solver
+                # could not decide (explored as an over-approximation) and that
+                # turns out infeasible is spurious, not vacuous
+                if ctx.unknown_branches:
+                    res['spurious_paths'] = res.get('spurious_paths', 0) + 1
+                else:
+                    res['vacuous_paths'] += 1
             elif v == 'sat':
                 witness = ctx._input_values(m)
         else:
@@ -179,7 +185,9 @@ def explore(mod_name, func_name, params, opts):
 def _log_repr(log):
     out = []
     for e in log:
-        if isinstance(e, tuple):
+        if isinstance(e, tuple) and e[0] == 'u':
+            out.append('t?' if e[1] else 'f?')
+        elif isinstance(e, tuple):
             out.append(f'v{e[1]}{"+" if e[2] else "-"}')
         else:
             out.append('T' if e else 'F')
